@@ -378,9 +378,15 @@ class C04(PropBase):
         return ans.count("|") >= 1
 
     chain_diff = []
+    rules_broken = []
+    not_wf = 0
 
     def extra(self, ctx):
         out = []
+        for case in self.rules_broken[:1]:
+            out.append({"case": case, "profile": "model", "found_input": False,
+                        "what": "mix_wf_layout and rules_ok hold for this Coq-built layout but the walker model with the rule evaluator cfi_rules "
+                                "does not return mix_chain (c04_recovers_chain_rules contradicted by computation)"})
         for case, coq_chain, mine in self.chain_diff[:1]:
             out.append({"case": case, "profile": "model", "found_input": True,
                         "what": "the chain of the Coq builder (scan_chain, constants from the sources) is %s..., the documented chain is %s..." % (coq_chain[:80], mine[:80])})
@@ -484,8 +490,12 @@ class C04(PropBase):
         cases = []
         for out, exp in zip(outs, exps):
             case, chain, wf = out.split(" ## ")
-            if wf != "1":
+            if wf[:2] != "11":
                 self.not_wf = getattr(self, "not_wf", 0) + 1
+            elif wf[2] != "1":
+                # both boolean preconditions of c04_recovers_chain_rules hold and the computed walk of the model with the rule
+                # evaluator is NOT the chain: the theorem (or the extraction) is broken -- cannot happen while the proof checks
+                self.rules_broken.append(case)
             mine = "|".join("%d,%d,%d,%s" % (e["instr"], e["resume"], e["sp"], e["trust"]) for e in exp)
             cases.append(case + " " + fmt_exp(add_expected_validity(int(case.split(" ", 1)[0]), exp)))
             if chain != mine:
@@ -495,6 +505,8 @@ class C04(PropBase):
     def gen_cases(self, tier, seed):
         rng = Rng(seed)
         self.chain_diff = []
+        self.rules_broken = []
+        self.not_wf = 0
         cases = []
         dist = {"coq_scan_layouts": 0, "python_chains": {}, "mixed": 0}
         n_a = 800 if tier == "quick" else 5000
